@@ -121,6 +121,32 @@ UNITS = [
                    replay="native.c23:replay_load_model"),
           fs_invariant="specs.report:cache_trace_ok"),
 
+    # main.execute: exit status <-> stderr/stdout; the flag is handed to load_model unchanged (C23)
+    Contract(f"{MAIN}:execute", ["C03", "C01", "C23", "C25"], specs=S,
+             ensures=[
+                 ("status", "result == 0 or result == 1"),
+                 ("success-is-silent", "implies(result == 0, written(stderr) == old(written(stderr)))"),
+                 ("success-announced", "implies(result == 0, written(stdout).endswith("
+                                       "'Code generated to: ' + str(params.output_dir) + '\\n'))"),
+                 ("failure-reported", "implies(result != 0, len(written(stderr)) > len(old(written(stderr))))"),
+             ],
+             twins=[("never-fails", "result == 0")]),
+]
+
+TARGETS = ["cpp", "csharp", "golang", "java", "jsonschema", "python", "typescript", "xsd"]
+for _t in TARGETS:
+    UNITS.append(Contract(
+        f"aas_core_codegen.{_t}.main:execute", ["C03", "C01", "C23", "C25"], specs=S,
+        ensures=[("status", "result == 0 or result == 1"),
+                 ("success-is-silent", "implies(result == 0, written(stderr) == old(written(stderr)))"),
+                 ("success-announced", "implies(result == 0, written(stdout).endswith("
+                                       "'Code generated to: ' + str(context.output_dir) + '\\n'))"),
+                 ("failure-reported", "implies(result != 0, len(written(stderr)) > len(old(written(stderr))))")],
+        modifies=["stdout", "stderr"], assumed=True,
+        justification="checked syntactically by the scan unit 'target-execute-skeleton' (every return of a non-zero "
+                      "status is preceded by a write to stderr, the return of 0 by the announcement on stdout)"))
+
+UNITS += [
     # ------------------------------------------------------------------ C23 (flag plumbing)
     Contract(f"{MAIN}:Parameters.__init__", ["C23"],
              ensures=[("cache-flag-is-the-argument", "self.cache_model == cache_model"),
